@@ -11,6 +11,7 @@ earlier calls left them, no core listed, cores lock free, finished core empty bu
 result, never BLOCKED, and after a failure every later call answers with an interrupt.
 """
 import json
+import os
 import re
 from concurrent.futures import ThreadPoolExecutor
 
@@ -18,6 +19,8 @@ from vlib import core
 from gen import host as H
 
 MODULES = ["HmsProofs.C16"]
+if os.environ.get("VERIF_DRV"):      # development only: a scratch driver while the shared one is being rebuilt
+    core.DRV = os.environ["VERIF_DRV"]
 
 # regression witnesses of the findings fixed for this property (always run first)
 REGRESSIONS = [
@@ -201,7 +204,9 @@ def run_batch(ctx, hists, stage, have_model):
             ctx.coverage.get("dead_core_handlers_left_by_return_inside_try_V10", 0) + stats["v10_handlers"]
         for e in exp:
             ctx.fn_hits[e["fn"]] = ctx.fn_hits.get(e["fn"], 0) + 1
-        if viol:
+        if viol and len(ctx.violations) >= 3:
+            ctx.violations.append({"what": f"{stage}: {viol}", "replay": "(not recorded: more than 3 violations)"})
+        elif viol:
             def still(c):
                 gl = core.go_lines("host", [H.host_line(c)], timeout=120)[0]
                 return judge_history(c, gl, None)[0] is not None
@@ -262,6 +267,8 @@ def run(ctx):
             if fn == "idx":
                 args[1] = H.I(len(args[0][1]) + 1) if want_fail else H.I(0)
             hists.append([("acall", "bump", []), ("acall", fn, args), ("call", "get_counter", []), ("acall", fn, args)])
+    if ctx.violations:
+        hists = hists[:100]          # already failing on the regression witnesses: a short confirmation run only
     ties = 0
     for i in range(0, len(hists), 400):
         ties += run_batch(ctx, hists[i:i + 400], "C16", have_model)
